@@ -74,6 +74,8 @@ func StrPtrEq(a, b *string) bool               { panic("intrinsic") }
 func Int64PtrEq(a, b *int64) bool              { panic("intrinsic") }
 func HasPrefix(s, p string) bool               { panic("intrinsic") }
 func GrpcCode(err error) int                   { panic("intrinsic") }
+func ChanClosed(ch any) bool                   { panic("intrinsic") }
+func ChanSends(ch any) int                     { panic("intrinsic") }
 func SchemaDiff() string                       { panic("intrinsic") }
 func NamedConsts(pkg, typeName string) []int64 { panic("intrinsic") }
 func Unmarshalled(b []byte) any                { panic("intrinsic") }
